@@ -140,6 +140,21 @@ namespace bloch::compiler {
             return false;
         };
 
+        // Class and array types carry ValueType::Unknown plus a class name; only a type with
+        // neither is really unknown (and therefore accepted anywhere).
+        bool isUnknownType(const SemanticAnalyser::TypeInfo& t) {
+            return t.value == ValueType::Unknown && t.className.empty();
+        }
+
+        // May a value of type 'actual' flow into a slot of primitive type 'expected'?
+        bool primitiveAccepts(ValueType expected, const SemanticAnalyser::TypeInfo& actual) {
+            if (expected == ValueType::Unknown || isUnknownType(actual))
+                return true;
+            if (!actual.className.empty())
+                return actual.isTypeParam;  // a class or array value is not a primitive
+            return matchesPrimitive(expected, actual.value);
+        }
+
         bool isArrayTypeName(const std::string& name) {
             return name.size() >= 2 && name.rfind("[]") == name.size() - 2;
         }
@@ -449,11 +464,7 @@ namespace bloch::compiler {
         }
 
         if (expected.className.empty()) {
-            if (expected.value == ValueType::Unknown || actual.value == ValueType::Unknown)
-                return true;
-            if (actual.className.empty())
-                return matchesPrimitive(expected.value, actual.value);
-            return false;
+            return primitiveAccepts(expected.value, actual);
         }
 
         if (expected.isTypeParam) {
@@ -501,7 +512,8 @@ namespace bloch::compiler {
         }
 
         if (expected.className.empty()) {
-            if (expected.value == ValueType::Unknown || actual.value == ValueType::Unknown)
+            if (expected.value == ValueType::Unknown || isUnknownType(actual) ||
+                actual.isTypeParam)
                 return 0;
             if (actual.className.empty()) {
                 if (expected.value == actual.value)
@@ -830,7 +842,7 @@ namespace bloch::compiler {
 
         if (auto primType = targetInfo.value; primType != ValueType::Unknown) {
             ValueType initT = initInfo.value;
-            if (!matchesPrimitive(primType, initT)) {
+            if (!primitiveAccepts(primType, initInfo)) {
                 if (primType == ValueType::Bit) {
                     if (auto lit = dynamic_cast<LiteralExpression*>(initializer)) {
                         if (lit->literalType == "int") {
@@ -860,8 +872,7 @@ namespace bloch::compiler {
                     throw BlochError(ErrorCategory::Semantic, line, column,
                                      "initialiser for '" + name + "' cannot be null");
                 }
-            } else if (!isAssignableType(targetInfo, initInfo) &&
-                       initInfo.value != ValueType::Unknown) {
+            } else if (!isAssignableType(targetInfo, initInfo) && !isUnknownType(initInfo)) {
                 throw BlochError(
                     ErrorCategory::Semantic, line, column,
                     "initialiser for '" + name + "' expected '" + typeLabel(targetInfo) + "'");
@@ -1688,7 +1699,7 @@ namespace bloch::compiler {
                         throw BlochError(ErrorCategory::Semantic, node.line, node.column,
                                          "return type mismatch");
                     }
-                } else if (!matchesPrimitive(m_currentReturn.value, actual.value)) {
+                } else if (!primitiveAccepts(m_currentReturn.value, actual)) {
                     throw BlochError(ErrorCategory::Semantic, node.line, node.column,
                                      "return type mismatch");
                 }
@@ -1851,8 +1862,7 @@ namespace bloch::compiler {
                         throw BlochError(ErrorCategory::Semantic, node.line, node.column,
                                          "cannot assign null to '" + node.name + "'");
                     }
-                } else if (valType.value != ValueType::Unknown &&
-                           !isAssignableType(targetType, valType)) {
+                } else if (!isUnknownType(valType) && !isAssignableType(targetType, valType)) {
                     throw BlochError(ErrorCategory::Semantic, node.line, node.column,
                                      "assignment to '" + node.name + "' expects '" +
                                          typeLabel(targetType) + "'");
@@ -1877,13 +1887,12 @@ namespace bloch::compiler {
                     }
                 }
                 if (!targetType.className.empty() && valType.value != ValueType::Null &&
-                    valType.value != ValueType::Unknown && !isAssignableType(targetType, valType)) {
+                    !isUnknownType(valType) && !isAssignableType(targetType, valType)) {
                     throw BlochError(ErrorCategory::Semantic, node.line, node.column,
                                      "assignment to field '" + node.name + "' expects '" +
                                          typeLabel(targetType) + "'");
                 } else if (field->type.value != ValueType::Unknown &&
-                           valType.value != ValueType::Unknown &&
-                           !matchesPrimitive(targetType.value, valType.value)) {
+                           !primitiveAccepts(targetType.value, valType)) {
                     throw BlochError(ErrorCategory::Semantic, node.line, node.column,
                                      "assignment to field '" + node.name + "' expects '" +
                                          typeToString(targetType.value) + "'");
@@ -2178,8 +2187,7 @@ namespace bloch::compiler {
                                              "' expected '" + typeLabel(expected) + "'");
                     }
                 } else if (expected.value != ValueType::Unknown &&
-                           actual.value != ValueType::Unknown &&
-                           !matchesPrimitive(expected.value, actual.value)) {
+                           !primitiveAccepts(expected.value, actual)) {
                     throw BlochError(ErrorCategory::Semantic, arg->line, arg->column,
                                      "argument #" + std::to_string(i + 1) + " to '" + name +
                                          "' expected '" + typeToString(expected.value) + "'");
@@ -2520,8 +2528,7 @@ namespace bloch::compiler {
                         throw BlochError(ErrorCategory::Semantic, node.line, node.column,
                                          "cannot assign null to '" + node.name + "'");
                     }
-                } else if (valType.value != ValueType::Unknown &&
-                           !isAssignableType(targetType, valType)) {
+                } else if (!isUnknownType(valType) && !isAssignableType(targetType, valType)) {
                     throw BlochError(ErrorCategory::Semantic, node.line, node.column,
                                      "assignment to '" + node.name + "' expects '" +
                                          typeLabel(targetType) + "'");
@@ -2546,13 +2553,12 @@ namespace bloch::compiler {
                     }
                 }
                 if (!targetType.className.empty() && valType.value != ValueType::Null &&
-                    valType.value != ValueType::Unknown && !isAssignableType(targetType, valType)) {
+                    !isUnknownType(valType) && !isAssignableType(targetType, valType)) {
                     throw BlochError(ErrorCategory::Semantic, node.line, node.column,
                                      "assignment to field '" + node.name + "' expects '" +
                                          typeLabel(targetType) + "'");
                 } else if (field->type.value != ValueType::Unknown &&
-                           valType.value != ValueType::Unknown &&
-                           !matchesPrimitive(targetType.value, valType.value)) {
+                           !primitiveAccepts(targetType.value, valType)) {
                     throw BlochError(ErrorCategory::Semantic, node.line, node.column,
                                      "assignment to field '" + node.name + "' expects '" +
                                          typeToString(targetType.value) + "'");
@@ -2626,13 +2632,12 @@ namespace bloch::compiler {
                 }
             }
             if (!targetType.className.empty() && valType.value != ValueType::Null &&
-                valType.value != ValueType::Unknown && !isAssignableType(targetType, valType)) {
+                !isUnknownType(valType) && !isAssignableType(targetType, valType)) {
                 throw BlochError(ErrorCategory::Semantic, node.line, node.column,
                                  "assignment to field '" + node.member + "' expects '" +
                                      typeLabel(targetType) + "'");
             } else if (targetType.value != ValueType::Unknown &&
-                       valType.value != ValueType::Unknown &&
-                       !matchesPrimitive(targetType.value, valType.value)) {
+                       !primitiveAccepts(targetType.value, valType)) {
                 throw BlochError(ErrorCategory::Semantic, node.line, node.column,
                                  "assignment to field '" + node.member + "' expects '" +
                                      typeToString(targetType.value) + "'");
